@@ -1497,6 +1497,65 @@ pub fn gen_fence_multi(rng: &mut Rng, cells: bool) -> Program {
     p
 }
 
+/// A convoy: the holder blocks inside its critical section (on a channel fed by the thread that is
+/// started last) so that two or three other threads are already blocked in their acquire when the
+/// lock is released; each of them records its turn in a cell. A release has to make every waiter
+/// runnable: whichever of them acquires next is a choice of the exploration, and each order has
+/// its own final cell value.
+pub fn gen_lock_convoy(rng: &mut Rng) -> Program {
+    let mut vs = ValueSrc::new();
+    let use_rw = rng.chance(1, 3);
+    // the holder is main (it takes the lock after having started everybody) or the first thread
+    let main_holds = rng.chance(2, 3);
+    // (loom runs at most five threads)
+    let nw = if main_holds && rng.chance(1, 5) { 3 } else { 2 };
+    let mut p = Program { n_mutex: if use_rw { 0 } else { 1 }, n_rwlock: if use_rw { 1 } else { 0 }, n_cell: 1, n_chan: 1, ..Default::default() };
+    let mut bodies: Vec<Vec<Op>> = Vec::new();
+    for _ in 0..nw {
+        bodies.push(if use_rw {
+            if rng.chance(1, 3) {
+                vec![Op::RLock { l: 0 }, Op::CRead { c: 0 }, Op::RUnlock { l: 0 }]
+            } else {
+                vec![Op::WLock { l: 0 }, Op::CWrite { c: 0, v: vs.constant() }, Op::WUnlock { l: 0 }]
+            }
+        } else {
+            vec![Op::Lock { m: 0 }, Op::CWrite { c: 0, v: vs.constant() }, Op::Unlock { m: 0 }]
+        });
+    }
+    let (acq, rel, fin_acq, fin_rel) = if use_rw {
+        if rng.chance(1, 4) {
+            (Op::RLock { l: 0 }, Op::RUnlock { l: 0 }, Op::RLock { l: 0 }, Op::RUnlock { l: 0 })
+        } else {
+            (Op::WLock { l: 0 }, Op::WUnlock { l: 0 }, Op::RLock { l: 0 }, Op::RUnlock { l: 0 })
+        }
+    } else {
+        (Op::Lock { m: 0 }, Op::Unlock { m: 0 }, Op::Lock { m: 0 }, Op::Unlock { m: 0 })
+    };
+    let holder = vec![acq, Op::Recv { c: 0 }, rel];
+    let sender = vec![Op::Send { c: 0, v: vs.constant() }];
+    let mut t0: Vec<Op> = Vec::new();
+    let mut threads: Vec<Vec<Op>> = Vec::new();
+    if !main_holds {
+        threads.push(holder.clone());
+    }
+    threads.extend(bodies);
+    threads.push(sender);
+    for t in 1..=threads.len() {
+        t0.push(Op::Spawn { t: t as u8 });
+    }
+    if main_holds {
+        t0.extend(holder);
+    }
+    for t in 1..=threads.len() {
+        t0.push(Op::Join { t: t as u8 });
+    }
+    t0.extend(vec![fin_acq, Op::CRead { c: 0 }, fin_rel]);
+    let mut all = vec![t0];
+    all.extend(threads);
+    p.threads = all;
+    p
+}
+
 /// park / unpark as message passing: the parked thread looks at data afterwards; one unparker
 /// publishes before it unparks, another one unparks without publishing (so that returning from
 /// `park` must synchronise with exactly the unpark that woke it, in every iteration anew).
